@@ -108,7 +108,7 @@ def absorb_composite(tabs, r):
         raise core.MachineryFailure("Composite.tla did not print its tables")
 
 
-def load_all(run, maxrank, dims=(2, 3), K=5, maxword=2, with_composite=True, workers=4):
+def load_all(run, maxrank, dims=(2, 3), K=5, maxword=2, with_composite=True, workers=4, classes=None):
     """Run spec/comp/CompUnits.tla (one TLC run per dimension) and spec/comp/Composite.tla
     concurrently (each run is dominated by its serial initial-state phase) and absorb the tables."""
     tabs = Tables()
@@ -117,7 +117,7 @@ def load_all(run, maxrank, dims=(2, 3), K=5, maxword=2, with_composite=True, wor
 
     def unit_job(dim):
         try:
-            c = core.cfg(constants=dict(Dim=dim, K=K, MaxWord=maxword),
+            c = core.cfg(constants=dict(Dim=dim, K=K, MaxWord=maxword, ClassSel=set(classes or ALL_CLASSES)),
                          invariants=["InDomain", "FormPreserved", "Equivariant", "Distinguishable", "ShortIdsInjective",
                                      "EmitObs"])
             results[("units", dim)] = run.tlc("comp/CompUnits.tla", c, name="CompUnits_dim%d" % dim,
@@ -182,12 +182,19 @@ def data_of(tabs, cls, dim, shape, ids):
     return rows.reshape(tuple(shape) + unit_shape(tabs, cls, dim)).copy()
 
 
-def build(tabs, cls, dim, shape, ids, route="array"):
-    """A live object of class `cls` whose unit at flat position p is ids[p]."""
+def build(tabs, cls, dim, shape, ids, route="array", neg=()):
+    """A live object of class `cls` whose unit at flat position p is ids[p].  `neg`: 1-based flat positions of the
+    units handed over with the representative -x (every row of the unit negated: the same projective unit)."""
     C = lib_class(cls)
     shape = tuple(shape)
     data = data_of(tabs, cls, dim, shape, ids)
-    if route == "array" or (route == "list" and len(shape) == 0):
+    if neg:
+        us = unit_shape(tabs, cls, dim)
+        flat = data.reshape((-1,) + us)
+        for p in neg:
+            flat[p - 1] *= -1
+        data = flat.reshape(shape + us).copy()
+    if route in ("array", "negarray") or (route == "list" and len(shape) == 0):
         return C(data), [data]
     if route == "object":
         return C(C(data)), [data]
